@@ -486,7 +486,7 @@ class C08(fw.Check):
         add('feature', 'window:mutation', windows[2], w(rn, (lvl,), (('ord', sc, 'asc'),)))
         add('feature', 'window:mutation', windows[3], w(('expr', 'avg', sc), (lvl,), (('ord', col, 'asc'),)))
         # (a) + (b): statements, their sub-features, one-leaf mutations
-        for _ in range(self.n(220, 10000)):
+        for _ in range(self.n(220, 8000)):
             ast = gen.statement(r.choice((1, 1, 2)))
             add('source', 'identical', ast, ast)
             for label, mut in g.leaf_mutations(ast, r, limit=3):
@@ -533,7 +533,7 @@ class C08(fw.Check):
         fams.append({'sort': 'source', 'label': 'family:table', 'keys': (g.SCHOOL, g.CAMPUS, t)})
         fams.append({'sort': 'feature', 'label': 'family:alias', 'keys': (col, ('alias', col, 'x'), ('alias', col, 'y'), ('elem', t, 'level'))})
         collisions = [(a, b) for _, a, b, c in self._collision_pairs() if c and a[0] == 'int']
-        for _ in range(self.n(40, 1500)):
+        for _ in range(self.n(40, 1200)):
             sort = 'source' if r.random() < 0.7 else 'feature'
             ast = gen.statement(1)
             if sort == 'feature':
